@@ -10,7 +10,9 @@ from .backend import RealBackend, flatten_outputs
 from .author_c02 import parse, advertised_order
 
 
-def scalar_programs():
+def scalar_programs(warm=False):
+    if warm:  # the same steps taken after a different step on the same solver object
+        return registry.warm_programs()
     return [p for p in registry.solver_programs() if p.name.endswith('_11') or p.name.endswith('_11_gf')]
 
 
@@ -123,9 +125,9 @@ def p_inputs(p):
     return p._inputs
 
 
-def search(rng, rounds=1, only=None):
+def search(rng, rounds=1, only=None, warm=False):
     fails, st = [], dict(evals=0, programs=0, known_F8=0)
-    for p in scalar_programs():
+    for p in scalar_programs(warm):
         if only and p.name not in only:
             continue
         st['programs'] += 1
